@@ -10,8 +10,7 @@ RULE = ("TLC enumerates configurations: 1-D (N in 4,5,8,12; 1-2 channels; modes 
 def run(ctx):
     ctx.mc("MC_Fourier", workers=2, note="mode padding/truncation bookkeeping is a diagonal frequency map for all spectrum lengths <= 33 and mode counts <= 20; refinement-consistent below the kept band")
     if ctx.replay:
-        scen = [json.load(open(ctx.replay))["trace"]["scenario"]]
-        scen[0].pop("tid", None)
+        scen = ctx.replay_scenarios()
     else:
         scen = ctx.gen("Gen_C20", "Gen_C20")
         # quick = thorough universe (no subsampling)
